@@ -21,11 +21,18 @@ class Val (α : Type) where
   eq : α → α → Bool
   /-- `a + frac*(b-a)` (moremath `Sample.Quantile`, interpolation R8), `frac` a float64 -/
   interp : α → α → F64.Bits → α
+  /-- tie-break of `NewSample`'s comparison among values that compare equal:
+  `math.Signbit(a) && !math.Signbit(b)` (−0 is ordered before +0). No ties to break by default. -/
+  before : α → α → Bool := fun _ _ => false
+  /-- `math.IsNaN` (values of an exact order are never NaN) -/
+  isNaN : α → Bool := fun _ => false
 
 instance : Val F64.Bits where
   lt := F64.lt
   eq := F64.eq
   interp a b f := F64.add a (F64.mul f (F64.sub b a))
+  before a b := F64.signBit a && !F64.signBit b
+  isNaN := F64.isNaN
 
 /-- `benchmath.Thresholds` -/
 structure Thresholds where
@@ -36,9 +43,15 @@ structure Sample (α : Type) where
   values : List α
   thresholds : Thresholds
 
-/-- `sort.Float64s` on NaN-free input: ascending by `<` (the relative order of equal elements,
-i.e. of -0 and +0, is not observable by anything in the property) -/
-def sortVals {α : Type} [Val α] (l : List α) : List α := l.mergeSort (fun a b => !Val.lt b a)
+/-- the comparison of `NewSample`'s `slices.SortFunc` as "a may precede b" (NaN-free input):
+`cmp.Compare(a, b)` decides when the values differ; equal values are ordered by sign bit, −0
+before +0 (fix F27 — `sort.Float64s` left the two zeros in arrival order) -/
+def sortLe {α : Type} [Val α] (a b : α) : Bool :=
+  if Val.lt a b then true else if Val.lt b a then false else !Val.before b a
+
+/-- the sort of `NewSample` on NaN-free input: ascending; the result does not depend on the order
+of the input, bit for bit (only bit-identical values tie) -/
+def sortVals {α : Type} [Val α] (l : List α) : List α := l.mergeSort sortLe
 
 /-- `NewSample`: sorts, keeps the thresholds -/
 def newSample {α : Type} [Val α] (values : List α) (t : Thresholds) : Sample α :=
